@@ -16,15 +16,15 @@ func calleeFunc(info *types.Info, call *ast.CallExpr) (*types.Func, bool) {
 
 // Graph wraps a go/cfg graph with dominator information and node lookup.
 type Graph struct {
-	U     FuncUnit
-	Info  *types.Info
-	CFG   *cfg.CFG
+	U    FuncUnit
+	Info *types.Info
+	CFG  *cfg.CFG
 	// switchTag maps each case expression of a tagged switch to the switch's tag: go/cfg emits the bare case expression as
 	// the condition node, which stands for `tag == expr`
 	switchTag map[ast.Expr]ast.Expr
-	idom  map[*cfg.Block]*cfg.Block
-	order map[*cfg.Block]int
-	preds map[*cfg.Block][]*cfg.Block
+	idom      map[*cfg.Block]*cfg.Block
+	order     map[*cfg.Block]int
+	preds     map[*cfg.Block][]*cfg.Block
 }
 
 // NewGraph builds the CFG of a function unit.
@@ -613,6 +613,14 @@ type ExitCount struct {
 // performs and whether it performs an action that requires exactly one prior event ("use"). It returns the count mask at
 // every exit and the positions of uses that can happen with a count other than one.
 func (g *Graph) CountOnPaths(classify func(n ast.Node) (events int, use bool)) (exits []ExitCount, badUses []token.Pos) {
+	return g.CountOnPathsCond(classify, nil)
+}
+
+// CountOnPathsCond is CountOnPaths with branch-sensitive events: when a block ends in a two-way branch, branch(cond, prev)
+// may say that the condition performs evTrue events on its true edge and evFalse on its false edge (a call in the condition
+// whose boolean result tells whether it performed the event). prev is the node before the condition in the same block (for
+// the `ok := f(); if ok` form), or nil.
+func (g *Graph) CountOnPathsCond(classify func(n ast.Node) (events int, use bool), branch func(cond ast.Expr, prev ast.Node) (evTrue, evFalse int, prevConsumed, ok bool)) (exits []ExitCount, badUses []token.Pos) {
 	in := map[*cfg.Block]CountMask{}
 	shift := func(m CountMask, k int) CountMask {
 		for ; k > 0; k-- {
@@ -639,7 +647,28 @@ func (g *Graph) CountOnPaths(classify func(n ast.Node) (events int, use bool)) (
 		work = work[:len(work)-1]
 		m := in[b]
 		ended := false
-		for _, n := range b.Nodes {
+		// branch-sensitive tail
+		tailFrom := len(b.Nodes)
+		evT, evF, hasBranch := 0, 0, false
+		if branch != nil && len(b.Succs) == 2 && len(b.Nodes) > 0 {
+			if cond, isExpr := b.Nodes[len(b.Nodes)-1].(ast.Expr); isExpr {
+				var prev ast.Node
+				if len(b.Nodes) > 1 {
+					prev = b.Nodes[len(b.Nodes)-2]
+				}
+				if t, f, prevConsumed, ok := branch(cond, prev); ok {
+					evT, evF, hasBranch = t, f, true
+					tailFrom = len(b.Nodes) - 1
+					if prevConsumed {
+						tailFrom--
+					}
+				}
+			}
+		}
+		for i, n := range b.Nodes {
+			if i >= tailFrom {
+				break
+			}
 			ev, use := classify(n)
 			if use && ev == 0 && m != 2 && !badSeen[n.Pos()] {
 				badSeen[n.Pos()] = true
@@ -678,9 +707,17 @@ func (g *Graph) CountOnPaths(classify func(n ast.Node) (events int, use bool)) (
 			}
 			continue
 		}
-		for _, s := range b.Succs {
-			if in[s]|m != in[s] {
-				in[s] |= m
+		for i, s := range b.Succs {
+			ms := m
+			if hasBranch {
+				if i == 0 {
+					ms = shift(m, evT)
+				} else {
+					ms = shift(m, evF)
+				}
+			}
+			if in[s]|ms != in[s] {
+				in[s] |= ms
 				work = append(work, s)
 			}
 		}
